@@ -1344,6 +1344,8 @@ class Evaluator:
             return recv
         if m in ('get', 'get_nowait') and recv[0] == 'mut' and not [a for a in args if a[0] != 'const']:
             return self.elem_of(recv)
+        if m in ('pop', 'get', 'setdefault') and args and self._is_mapping(recv):
+            return alt(self.values_of(recv), *args[1:2])
         if m in ('copy',) and not args and recv[0] in ('dict', 'seq', 'upd', 'mut'):
             return recv
         return None
@@ -1392,6 +1394,18 @@ class Evaluator:
         if k == 'bin' and t[1] in ('BitOr', 'Add'):
             return alt(self.elem_of(t[2]), self.elem_of(t[3]))
         return ('elem', t)
+
+    def _is_mapping(self, t):
+        k = t[0]
+        if k == 'dict':
+            return True
+        if k == 'upd':
+            return True
+        if k == 'mut':
+            return self._is_mapping(t[1])
+        if k == 'alt':
+            return all(self._is_mapping(x) for x in t[1])
+        return False
 
     def values_of(self, t):
         k = t[0]
